@@ -88,3 +88,207 @@ package activitypub
 //@   invariant (forall (j) (=> (and (<= 0 j) (<= j rangeindex))
 //@               (not (and (= (field (at n j) Ref) (field (at with (+ rangeindex^ 1)) Ref))
 //@                         (bytesEq (field (at n j) Value) (field (at with (+ rangeindex^ 1)) Value))))))
+
+// ---- C13: collections as insertion-ordered sets -------------------------------------------------
+// `view` is the member list of the collection. itemsEq is the meaning of ItemsEqual (a callee contract
+// here; its own laws are property C09).
+
+//@ func (ItemCollection).Contains
+//@ ensures (= result (exists (k) (and (<= 0 k) (< k (len i)) (itemsEq (at i k) r))))
+//@ loop 0
+//@   invariant (and (<= -1 rangeindex) (< rangeindex (len i)))
+//@   invariant (forall (k) (=> (and (<= 0 k) (<= k rangeindex)) (not (itemsEq (at i k) r))))
+
+//@ func (*ItemCollection).Count
+//@ ensures (= result (ite (isnil i) 0 (len (deref i))))
+
+//@ func (*ItemCollection).Append
+//@ requires (not (isnil i))
+//@ requires (forall (j) (=> (and (<= 0 j) (< j (len it))) (itemsEq (at it j) (at it j))))
+//@ ensures (= result nil)
+//@ ensures (and (>= (len (deref i)) (len (old (deref i)))) (<= (len (deref i)) (+ (len (old (deref i))) (len it))))
+//@ ensures (forall (k) (=> (and (<= 0 k) (< k (len (old (deref i))))) (= (at (deref i) k) (old (at (deref i) k)))))
+//@ ensures (forall (j) (=> (and (<= 0 j) (< j (len it))) (exists (k) (and (<= 0 k) (< k (len (deref i))) (itemsEq (at (deref i) k) (at it j))))))
+//@ ensures (forall (k) (=> (and (<= (len (old (deref i))) k) (< k (len (deref i)))) (exists (j) (and (<= 0 j) (< j (len it)) (= (at (deref i) k) (at it j))))))
+//@ ensures (=> (forall (a b) (=> (and (<= 0 a) (< a b) (< b (len (old (deref i))))) (not (itemsEq (old (at (deref i) a)) (old (at (deref i) b))))))
+//@             (forall (a b) (=> (and (<= 0 a) (< a b) (< b (len (deref i)))) (not (itemsEq (at (deref i) a) (at (deref i) b))))))
+//@ ensures (=> (= (len it) 1)
+//@             (ite (exists (k) (and (<= 0 k) (< k (len (old (deref i)))) (itemsEq (old (at (deref i) k)) (at it 0))))
+//@                  (= (len (deref i)) (len (old (deref i))))
+//@                  (and (= (len (deref i)) (+ (len (old (deref i))) 1)) (= (at (deref i) (len (old (deref i)))) (at it 0)))))
+//@ loop 0
+//@   invariant (and (<= -1 rangeindex) (< rangeindex (len it)))
+//@   invariant (and (>= (len (deref i)) (len (old (deref i)))) (<= (len (deref i)) (+ (len (old (deref i))) (+ rangeindex 1))))
+//@   invariant (forall (k) (=> (and (<= 0 k) (< k (len (old (deref i))))) (= (at (deref i) k) (old (at (deref i) k)))))
+//@   invariant (forall (j) (=> (and (<= 0 j) (<= j rangeindex)) (exists (k) (and (<= 0 k) (< k (len (deref i))) (itemsEq (at (deref i) k) (at it j))))))
+//@   invariant (forall (k) (=> (and (<= (len (old (deref i))) k) (< k (len (deref i)))) (exists (j) (and (<= 0 j) (<= j rangeindex) (= (at (deref i) k) (at it j))))))
+//@   invariant (=> (forall (a b) (=> (and (<= 0 a) (< a b) (< b (len (old (deref i))))) (not (itemsEq (old (at (deref i) a)) (old (at (deref i) b))))))
+//@                 (forall (a b) (=> (and (<= 0 a) (< a b) (< b (len (deref i)))) (not (itemsEq (at (deref i) a) (at (deref i) b))))))
+//@   invariant (=> (and (= (len it) 1) (= rangeindex -1)) (= (len (deref i)) (len (old (deref i)))))
+//@   invariant (=> (and (= (len it) 1) (= rangeindex 0))
+//@                 (ite (exists (k) (and (<= 0 k) (< k (len (old (deref i)))) (itemsEq (old (at (deref i) k)) (at it 0))))
+//@                      (= (len (deref i)) (len (old (deref i))))
+//@                      (and (= (len (deref i)) (+ (len (old (deref i))) 1)) (= (at (deref i) (len (old (deref i)))) (at it 0)))))
+
+//@ func (Collection).Contains
+//@ ensures (= result (exists (k) (and (<= 0 k) (< k (len (field c Items))) (itemsEq (at (field c Items) k) r))))
+//@ loop 0
+//@   invariant (and (<= -1 rangeindex) (< rangeindex (len (field c Items))))
+//@   invariant (forall (k) (=> (and (<= 0 k) (<= k rangeindex)) (not (itemsEq (at (field c Items) k) r))))
+
+//@ func (*Collection).Count
+//@ ensures (= result (ite (isnil c) 0 (len (field (deref c) Items))))
+
+//@ func (*Collection).Append
+//@ requires (not (isnil c))
+//@ requires (forall (j) (=> (and (<= 0 j) (< j (len it))) (itemsEq (at it j) (at it j))))
+//@ ensures (= result nil)
+//@ ensures (and (>= (len (field (deref c) Items)) (len (old (field (deref c) Items)))) (<= (len (field (deref c) Items)) (+ (len (old (field (deref c) Items))) (len it))))
+//@ ensures (forall (k) (=> (and (<= 0 k) (< k (len (old (field (deref c) Items))))) (= (at (field (deref c) Items) k) (old (at (field (deref c) Items) k)))))
+//@ ensures (forall (j) (=> (and (<= 0 j) (< j (len it))) (exists (k) (and (<= 0 k) (< k (len (field (deref c) Items))) (itemsEq (at (field (deref c) Items) k) (at it j))))))
+//@ ensures (forall (k) (=> (and (<= (len (old (field (deref c) Items))) k) (< k (len (field (deref c) Items)))) (exists (j) (and (<= 0 j) (< j (len it)) (= (at (field (deref c) Items) k) (at it j))))))
+//@ ensures (=> (forall (a b) (=> (and (<= 0 a) (< a b) (< b (len (old (field (deref c) Items))))) (not (itemsEq (old (at (field (deref c) Items) a)) (old (at (field (deref c) Items) b))))))
+//@             (forall (a b) (=> (and (<= 0 a) (< a b) (< b (len (field (deref c) Items)))) (not (itemsEq (at (field (deref c) Items) a) (at (field (deref c) Items) b))))))
+//@ ensures (=> (= (len it) 1)
+//@             (ite (exists (k) (and (<= 0 k) (< k (len (old (field (deref c) Items)))) (itemsEq (old (at (field (deref c) Items) k)) (at it 0))))
+//@                  (= (len (field (deref c) Items)) (len (old (field (deref c) Items))))
+//@                  (and (= (len (field (deref c) Items)) (+ (len (old (field (deref c) Items))) 1)) (= (at (field (deref c) Items) (len (old (field (deref c) Items)))) (at it 0)))))
+//@ loop 0
+//@   invariant (and (<= -1 rangeindex) (< rangeindex (len it)))
+//@   invariant (and (>= (len (field (deref c) Items)) (len (old (field (deref c) Items)))) (<= (len (field (deref c) Items)) (+ (len (old (field (deref c) Items))) (+ rangeindex 1))))
+//@   invariant (forall (k) (=> (and (<= 0 k) (< k (len (old (field (deref c) Items))))) (= (at (field (deref c) Items) k) (old (at (field (deref c) Items) k)))))
+//@   invariant (forall (j) (=> (and (<= 0 j) (<= j rangeindex)) (exists (k) (and (<= 0 k) (< k (len (field (deref c) Items))) (itemsEq (at (field (deref c) Items) k) (at it j))))))
+//@   invariant (forall (k) (=> (and (<= (len (old (field (deref c) Items))) k) (< k (len (field (deref c) Items)))) (exists (j) (and (<= 0 j) (<= j rangeindex) (= (at (field (deref c) Items) k) (at it j))))))
+//@   invariant (=> (forall (a b) (=> (and (<= 0 a) (< a b) (< b (len (old (field (deref c) Items))))) (not (itemsEq (old (at (field (deref c) Items) a)) (old (at (field (deref c) Items) b))))))
+//@                 (forall (a b) (=> (and (<= 0 a) (< a b) (< b (len (field (deref c) Items)))) (not (itemsEq (at (field (deref c) Items) a) (at (field (deref c) Items) b))))))
+//@   invariant (=> (and (= (len it) 1) (= rangeindex -1)) (= (len (field (deref c) Items)) (len (old (field (deref c) Items)))))
+//@   invariant (=> (and (= (len it) 1) (= rangeindex 0))
+//@                 (ite (exists (k) (and (<= 0 k) (< k (len (old (field (deref c) Items)))) (itemsEq (old (at (field (deref c) Items) k)) (at it 0))))
+//@                      (= (len (field (deref c) Items)) (len (old (field (deref c) Items))))
+//@                      (and (= (len (field (deref c) Items)) (+ (len (old (field (deref c) Items))) 1)) (= (at (field (deref c) Items) (len (old (field (deref c) Items)))) (at it 0)))))
+
+//@ func (CollectionPage).Contains
+//@ ensures (= result (exists (k) (and (<= 0 k) (< k (len (field c Items))) (itemsEq (at (field c Items) k) r))))
+//@ loop 0
+//@   invariant (and (<= -1 rangeindex) (< rangeindex (len (field c Items))))
+//@   invariant (forall (k) (=> (and (<= 0 k) (<= k rangeindex)) (not (itemsEq (at (field c Items) k) r))))
+
+//@ func (*CollectionPage).Count
+//@ ensures (= result (ite (isnil c) 0 (len (field (deref c) Items))))
+
+//@ func (*CollectionPage).Append
+//@ requires (not (isnil c))
+//@ requires (forall (j) (=> (and (<= 0 j) (< j (len it))) (itemsEq (at it j) (at it j))))
+//@ ensures (= result nil)
+//@ ensures (and (>= (len (field (deref c) Items)) (len (old (field (deref c) Items)))) (<= (len (field (deref c) Items)) (+ (len (old (field (deref c) Items))) (len it))))
+//@ ensures (forall (k) (=> (and (<= 0 k) (< k (len (old (field (deref c) Items))))) (= (at (field (deref c) Items) k) (old (at (field (deref c) Items) k)))))
+//@ ensures (forall (j) (=> (and (<= 0 j) (< j (len it))) (exists (k) (and (<= 0 k) (< k (len (field (deref c) Items))) (itemsEq (at (field (deref c) Items) k) (at it j))))))
+//@ ensures (forall (k) (=> (and (<= (len (old (field (deref c) Items))) k) (< k (len (field (deref c) Items)))) (exists (j) (and (<= 0 j) (< j (len it)) (= (at (field (deref c) Items) k) (at it j))))))
+//@ ensures (=> (forall (a b) (=> (and (<= 0 a) (< a b) (< b (len (old (field (deref c) Items))))) (not (itemsEq (old (at (field (deref c) Items) a)) (old (at (field (deref c) Items) b))))))
+//@             (forall (a b) (=> (and (<= 0 a) (< a b) (< b (len (field (deref c) Items)))) (not (itemsEq (at (field (deref c) Items) a) (at (field (deref c) Items) b))))))
+//@ ensures (=> (= (len it) 1)
+//@             (ite (exists (k) (and (<= 0 k) (< k (len (old (field (deref c) Items)))) (itemsEq (old (at (field (deref c) Items) k)) (at it 0))))
+//@                  (= (len (field (deref c) Items)) (len (old (field (deref c) Items))))
+//@                  (and (= (len (field (deref c) Items)) (+ (len (old (field (deref c) Items))) 1)) (= (at (field (deref c) Items) (len (old (field (deref c) Items)))) (at it 0)))))
+//@ loop 0
+//@   invariant (and (<= -1 rangeindex) (< rangeindex (len it)))
+//@   invariant (and (>= (len (field (deref c) Items)) (len (old (field (deref c) Items)))) (<= (len (field (deref c) Items)) (+ (len (old (field (deref c) Items))) (+ rangeindex 1))))
+//@   invariant (forall (k) (=> (and (<= 0 k) (< k (len (old (field (deref c) Items))))) (= (at (field (deref c) Items) k) (old (at (field (deref c) Items) k)))))
+//@   invariant (forall (j) (=> (and (<= 0 j) (<= j rangeindex)) (exists (k) (and (<= 0 k) (< k (len (field (deref c) Items))) (itemsEq (at (field (deref c) Items) k) (at it j))))))
+//@   invariant (forall (k) (=> (and (<= (len (old (field (deref c) Items))) k) (< k (len (field (deref c) Items)))) (exists (j) (and (<= 0 j) (<= j rangeindex) (= (at (field (deref c) Items) k) (at it j))))))
+//@   invariant (=> (forall (a b) (=> (and (<= 0 a) (< a b) (< b (len (old (field (deref c) Items))))) (not (itemsEq (old (at (field (deref c) Items) a)) (old (at (field (deref c) Items) b))))))
+//@                 (forall (a b) (=> (and (<= 0 a) (< a b) (< b (len (field (deref c) Items)))) (not (itemsEq (at (field (deref c) Items) a) (at (field (deref c) Items) b))))))
+//@   invariant (=> (and (= (len it) 1) (= rangeindex -1)) (= (len (field (deref c) Items)) (len (old (field (deref c) Items)))))
+//@   invariant (=> (and (= (len it) 1) (= rangeindex 0))
+//@                 (ite (exists (k) (and (<= 0 k) (< k (len (old (field (deref c) Items)))) (itemsEq (old (at (field (deref c) Items) k)) (at it 0))))
+//@                      (= (len (field (deref c) Items)) (len (old (field (deref c) Items))))
+//@                      (and (= (len (field (deref c) Items)) (+ (len (old (field (deref c) Items))) 1)) (= (at (field (deref c) Items) (len (old (field (deref c) Items)))) (at it 0)))))
+
+//@ func (OrderedCollection).Contains
+//@ ensures (= result (exists (k) (and (<= 0 k) (< k (len (field o OrderedItems))) (itemsEq (at (field o OrderedItems) k) r))))
+//@ loop 0
+//@   invariant (and (<= -1 rangeindex) (< rangeindex (len (field o OrderedItems))))
+//@   invariant (forall (k) (=> (and (<= 0 k) (<= k rangeindex)) (not (itemsEq (at (field o OrderedItems) k) r))))
+
+//@ func (*OrderedCollection).Count
+//@ ensures (= result (ite (isnil o) 0 (len (field (deref o) OrderedItems))))
+
+//@ func (*OrderedCollection).Append
+//@ requires (not (isnil o))
+//@ requires (forall (j) (=> (and (<= 0 j) (< j (len it))) (itemsEq (at it j) (at it j))))
+//@ ensures (= result nil)
+//@ ensures (and (>= (len (field (deref o) OrderedItems)) (len (old (field (deref o) OrderedItems)))) (<= (len (field (deref o) OrderedItems)) (+ (len (old (field (deref o) OrderedItems))) (len it))))
+//@ ensures (forall (k) (=> (and (<= 0 k) (< k (len (old (field (deref o) OrderedItems))))) (= (at (field (deref o) OrderedItems) k) (old (at (field (deref o) OrderedItems) k)))))
+//@ ensures (forall (j) (=> (and (<= 0 j) (< j (len it))) (exists (k) (and (<= 0 k) (< k (len (field (deref o) OrderedItems))) (itemsEq (at (field (deref o) OrderedItems) k) (at it j))))))
+//@ ensures (forall (k) (=> (and (<= (len (old (field (deref o) OrderedItems))) k) (< k (len (field (deref o) OrderedItems)))) (exists (j) (and (<= 0 j) (< j (len it)) (= (at (field (deref o) OrderedItems) k) (at it j))))))
+//@ ensures (=> (forall (a b) (=> (and (<= 0 a) (< a b) (< b (len (old (field (deref o) OrderedItems))))) (not (itemsEq (old (at (field (deref o) OrderedItems) a)) (old (at (field (deref o) OrderedItems) b))))))
+//@             (forall (a b) (=> (and (<= 0 a) (< a b) (< b (len (field (deref o) OrderedItems)))) (not (itemsEq (at (field (deref o) OrderedItems) a) (at (field (deref o) OrderedItems) b))))))
+//@ ensures (=> (= (len it) 1)
+//@             (ite (exists (k) (and (<= 0 k) (< k (len (old (field (deref o) OrderedItems)))) (itemsEq (old (at (field (deref o) OrderedItems) k)) (at it 0))))
+//@                  (= (len (field (deref o) OrderedItems)) (len (old (field (deref o) OrderedItems))))
+//@                  (and (= (len (field (deref o) OrderedItems)) (+ (len (old (field (deref o) OrderedItems))) 1)) (= (at (field (deref o) OrderedItems) (len (old (field (deref o) OrderedItems)))) (at it 0)))))
+//@ loop 0
+//@   invariant (and (<= -1 rangeindex) (< rangeindex (len it)))
+//@   invariant (and (>= (len (field (deref o) OrderedItems)) (len (old (field (deref o) OrderedItems)))) (<= (len (field (deref o) OrderedItems)) (+ (len (old (field (deref o) OrderedItems))) (+ rangeindex 1))))
+//@   invariant (forall (k) (=> (and (<= 0 k) (< k (len (old (field (deref o) OrderedItems))))) (= (at (field (deref o) OrderedItems) k) (old (at (field (deref o) OrderedItems) k)))))
+//@   invariant (forall (j) (=> (and (<= 0 j) (<= j rangeindex)) (exists (k) (and (<= 0 k) (< k (len (field (deref o) OrderedItems))) (itemsEq (at (field (deref o) OrderedItems) k) (at it j))))))
+//@   invariant (forall (k) (=> (and (<= (len (old (field (deref o) OrderedItems))) k) (< k (len (field (deref o) OrderedItems)))) (exists (j) (and (<= 0 j) (<= j rangeindex) (= (at (field (deref o) OrderedItems) k) (at it j))))))
+//@   invariant (=> (forall (a b) (=> (and (<= 0 a) (< a b) (< b (len (old (field (deref o) OrderedItems))))) (not (itemsEq (old (at (field (deref o) OrderedItems) a)) (old (at (field (deref o) OrderedItems) b))))))
+//@                 (forall (a b) (=> (and (<= 0 a) (< a b) (< b (len (field (deref o) OrderedItems)))) (not (itemsEq (at (field (deref o) OrderedItems) a) (at (field (deref o) OrderedItems) b))))))
+//@   invariant (=> (and (= (len it) 1) (= rangeindex -1)) (= (len (field (deref o) OrderedItems)) (len (old (field (deref o) OrderedItems)))))
+//@   invariant (=> (and (= (len it) 1) (= rangeindex 0))
+//@                 (ite (exists (k) (and (<= 0 k) (< k (len (old (field (deref o) OrderedItems)))) (itemsEq (old (at (field (deref o) OrderedItems) k)) (at it 0))))
+//@                      (= (len (field (deref o) OrderedItems)) (len (old (field (deref o) OrderedItems))))
+//@                      (and (= (len (field (deref o) OrderedItems)) (+ (len (old (field (deref o) OrderedItems))) 1)) (= (at (field (deref o) OrderedItems) (len (old (field (deref o) OrderedItems)))) (at it 0)))))
+
+//@ func (OrderedCollectionPage).Contains
+//@ ensures (= result (exists (k) (and (<= 0 k) (< k (len (field o OrderedItems))) (itemsEq (at (field o OrderedItems) k) r))))
+//@ loop 0
+//@   invariant (and (<= -1 rangeindex) (< rangeindex (len (field o OrderedItems))))
+//@   invariant (forall (k) (=> (and (<= 0 k) (<= k rangeindex)) (not (itemsEq (at (field o OrderedItems) k) r))))
+
+//@ func (*OrderedCollectionPage).Count
+//@ ensures (= result (ite (isnil o) 0 (len (field (deref o) OrderedItems))))
+
+//@ func (*OrderedCollectionPage).Append
+//@ requires (not (isnil o))
+//@ requires (forall (j) (=> (and (<= 0 j) (< j (len it))) (itemsEq (at it j) (at it j))))
+//@ ensures (= result nil)
+//@ ensures (and (>= (len (field (deref o) OrderedItems)) (len (old (field (deref o) OrderedItems)))) (<= (len (field (deref o) OrderedItems)) (+ (len (old (field (deref o) OrderedItems))) (len it))))
+//@ ensures (forall (k) (=> (and (<= 0 k) (< k (len (old (field (deref o) OrderedItems))))) (= (at (field (deref o) OrderedItems) k) (old (at (field (deref o) OrderedItems) k)))))
+//@ ensures (forall (j) (=> (and (<= 0 j) (< j (len it))) (exists (k) (and (<= 0 k) (< k (len (field (deref o) OrderedItems))) (itemsEq (at (field (deref o) OrderedItems) k) (at it j))))))
+//@ ensures (forall (k) (=> (and (<= (len (old (field (deref o) OrderedItems))) k) (< k (len (field (deref o) OrderedItems)))) (exists (j) (and (<= 0 j) (< j (len it)) (= (at (field (deref o) OrderedItems) k) (at it j))))))
+//@ ensures (=> (forall (a b) (=> (and (<= 0 a) (< a b) (< b (len (old (field (deref o) OrderedItems))))) (not (itemsEq (old (at (field (deref o) OrderedItems) a)) (old (at (field (deref o) OrderedItems) b))))))
+//@             (forall (a b) (=> (and (<= 0 a) (< a b) (< b (len (field (deref o) OrderedItems)))) (not (itemsEq (at (field (deref o) OrderedItems) a) (at (field (deref o) OrderedItems) b))))))
+//@ ensures (=> (= (len it) 1)
+//@             (ite (exists (k) (and (<= 0 k) (< k (len (old (field (deref o) OrderedItems)))) (itemsEq (old (at (field (deref o) OrderedItems) k)) (at it 0))))
+//@                  (= (len (field (deref o) OrderedItems)) (len (old (field (deref o) OrderedItems))))
+//@                  (and (= (len (field (deref o) OrderedItems)) (+ (len (old (field (deref o) OrderedItems))) 1)) (= (at (field (deref o) OrderedItems) (len (old (field (deref o) OrderedItems)))) (at it 0)))))
+//@ loop 0
+//@   invariant (and (<= -1 rangeindex) (< rangeindex (len it)))
+//@   invariant (and (>= (len (field (deref o) OrderedItems)) (len (old (field (deref o) OrderedItems)))) (<= (len (field (deref o) OrderedItems)) (+ (len (old (field (deref o) OrderedItems))) (+ rangeindex 1))))
+//@   invariant (forall (k) (=> (and (<= 0 k) (< k (len (old (field (deref o) OrderedItems))))) (= (at (field (deref o) OrderedItems) k) (old (at (field (deref o) OrderedItems) k)))))
+//@   invariant (forall (j) (=> (and (<= 0 j) (<= j rangeindex)) (exists (k) (and (<= 0 k) (< k (len (field (deref o) OrderedItems))) (itemsEq (at (field (deref o) OrderedItems) k) (at it j))))))
+//@   invariant (forall (k) (=> (and (<= (len (old (field (deref o) OrderedItems))) k) (< k (len (field (deref o) OrderedItems)))) (exists (j) (and (<= 0 j) (<= j rangeindex) (= (at (field (deref o) OrderedItems) k) (at it j))))))
+//@   invariant (=> (forall (a b) (=> (and (<= 0 a) (< a b) (< b (len (old (field (deref o) OrderedItems))))) (not (itemsEq (old (at (field (deref o) OrderedItems) a)) (old (at (field (deref o) OrderedItems) b))))))
+//@                 (forall (a b) (=> (and (<= 0 a) (< a b) (< b (len (field (deref o) OrderedItems)))) (not (itemsEq (at (field (deref o) OrderedItems) a) (at (field (deref o) OrderedItems) b))))))
+//@   invariant (=> (and (= (len it) 1) (= rangeindex -1)) (= (len (field (deref o) OrderedItems)) (len (old (field (deref o) OrderedItems)))))
+//@   invariant (=> (and (= (len it) 1) (= rangeindex 0))
+//@                 (ite (exists (k) (and (<= 0 k) (< k (len (old (field (deref o) OrderedItems)))) (itemsEq (old (at (field (deref o) OrderedItems) k)) (at it 0))))
+//@                      (= (len (field (deref o) OrderedItems)) (len (old (field (deref o) OrderedItems))))
+//@                      (and (= (len (field (deref o) OrderedItems)) (+ (len (old (field (deref o) OrderedItems))) 1)) (= (at (field (deref o) OrderedItems) (len (old (field (deref o) OrderedItems)))) (at it 0)))))
+
+//@ func (*ItemCollection).Remove
+//@ requires (not (isnil i))
+//@ ensures (=> (or (isnil r) (forall (k) (=> (and (<= 0 k) (< k (len (old (deref i))))) (not (itemsEq (old (at (deref i) k)) r)))))
+//@             (and (= (len (deref i)) (len (old (deref i)))) (forall (k) (=> (and (<= 0 k) (< k (len (old (deref i))))) (= (at (deref i) k) (old (at (deref i) k)))))))
+//@ ensures (=> (and (not (isnil r)) (exists (k) (and (<= 0 k) (< k (len (old (deref i)))) (itemsEq (old (at (deref i) k)) r))))
+//@             (exists (m) (and (<= 0 m) (< m (len (old (deref i)))) (itemsEq (old (at (deref i) m)) r)
+//@                (forall (k) (=> (and (< m k) (< k (len (old (deref i))))) (not (itemsEq (old (at (deref i) k)) r))))
+//@                (= (len (deref i)) (- (len (old (deref i))) 1))
+//@                (forall (k) (=> (and (<= 0 k) (< k m)) (= (at (deref i) k) (old (at (deref i) k)))))
+//@                (forall (k) (=> (and (<= m k) (< k (len (deref i)))) (= (at (deref i) k) (old (at (deref i) (+ k 1)))))))))
+//@ loop 0
+//@   invariant (and (<= -1 rangeindex) (< rangeindex (len (deref i))) (<= -1 remIdx) (<= remIdx rangeindex))
+//@   invariant (=> (>= remIdx 0) (itemsEq (at (deref i) remIdx) r))
+//@   invariant (forall (k) (=> (and (< remIdx k) (<= k rangeindex)) (not (itemsEq (at (deref i) k) r))))
